@@ -6,6 +6,8 @@ package main
 //   refClient   — reference controller speaking HTTP (plaintext, then HAP-framed) over a net.Conn
 
 import (
+	"syscall"
+	"strconv"
 	gocontext "context"
 	"bufio"
 	"bytes"
@@ -574,18 +576,23 @@ func serveAccessory(dir string) {
 		fmt.Println("ERROR", err)
 		os.Exit(3)
 	}
+	if n, _ := strconv.Atoi(os.Getenv("HC_VERIF_NOFILE")); n > 0 {
+		// a small descriptor table (set after start-up: only connections accepted from now on run into it)
+		syscall.Setrlimit(syscall.RLIMIT_NOFILE, &syscall.Rlimit{Cur: uint64(n), Max: uint64(n)})
+	}
 	fmt.Printf("READY %s %d %d\n", acc.port, sw.ID, sw.Switch.On.ID)
 	io.Copy(ioutil.Discard, os.Stdin)
 	acc.Stop()
 }
 
 // startE2EChild starts `drive -serve dir` and waits for its READY line.
-func startE2EChild(dir string) (*e2eAcc, error) {
+func startE2EChild(dir string, env ...string) (*e2eAcc, error) {
 	self, err := os.Executable()
 	if err != nil {
 		return nil, err
 	}
 	cmd := exec.Command(self, "-serve", dir)
+	cmd.Env = append(os.Environ(), env...)
 	cmd.Stderr = ioutil.Discard
 	stdin, _ := cmd.StdinPipe()
 	out, _ := cmd.StdoutPipe()
